@@ -45,8 +45,8 @@ IlogP1(rm) == IF rm = TOPM THEN CODE_BITS ELSE Ilog(rm + 1)
 (***************************************************************************)
 \* top 16 bits of rng = rm+1 (rng >= 2^16 at full width; padded at reduced width)
 Mant16P1(rm) ==
-  LET l == IlogP1(rm) IN
-  IF l >= 16 THEN DivP1(rm, Pow2(l - 16)) ELSE (rm + 1) * Pow2(16 - l)
+  LET lg == IlogP1(rm) IN
+  IF lg >= 16 THEN DivP1(rm, Pow2(lg - 16)) ELSE (rm + 1) * Pow2(16 - lg)
 Correction == <<35733, 38967, 42495, 46340, 50535, 55109, 60097, 65535>>
 FracOfMant(r) == LET b == (r \div 4096) - 8 IN b + (IF r > Correction[b + 1] THEN 1 ELSE 0)
 SqShr15(r) == LET h == r \div 256  lo == r % 256 IN 2 * h * h + ((512 * h * lo + lo * lo) \div 32768)
